@@ -443,6 +443,30 @@ class Parser:
                 o2 = tr.trace(comb, fl["2"], ())
                 ok_l = any(o[0] == "param" and o[2] == 0 for o in o1) and any(o[0] == "ctor" for o in o1)
                 ok_r = all(o[0] in ("param", "call") for o in o2) and not any(o[0] == "param" and o[2] == 0 for o in o2)
+        if not (ok_l and ok_r):
+            # the same fold written with Iterator::fold: init = the left operand, closure builds (accumulator, element)
+            for c in F.exprs(comb["thir"], "Call"):
+                if short(c.get("fn") or "") != "fold" or len(c.get("args", [])) < 3:
+                    continue
+                init = tr.trace(comb, c["args"][1], ())
+                recv = F.strip(c["args"][0])
+                forward = not any(short(x.get("fn") or "") in ("rev", "skip", "take", "step_by", "filter") for x in F.exprs(c["args"][0], "Call"))
+                clo = F.strip(c["args"][2])
+                cb = self.facts.bodies.get(clo.get("path")) if clo.get("k") == "Closure" else None
+                if not cb or not forward or not (init and all(o[0] == "param" and o[2] == 0 for o in init)):
+                    continue
+                cps = cb.get("params", [])[1:]
+                if len(cps) != 2:
+                    continue
+                acc_ids = {i for i, n_, p_ in F.pat_binds(cps[0].get("pat", {}))}
+                el_ids = {i for i, n_, p_ in F.pat_binds(cps[1].get("pat", {}))}
+                for a in F.exprs(cb["thir"], "Adt"):
+                    if short(a["adt"]) == "Expression" and a.get("variant") == "BinaryOperation":
+                        fl = {x["f"]: x["e"] for x in a["fields"]}
+                        v1 = {v["id"] for v in F.exprs(fl["1"], "Var")}
+                        v2 = {v["id"] for v in F.exprs(fl["2"], "Var")}
+                        ok_l = bool(v1) and v1 <= acc_ids
+                        ok_r = bool(v2) and v2 <= el_ids
         self.chk.ob("C09.assoc/left-fold", ok_l and ok_r,
                     "combine_rights folds to the left: the accumulated expression is the left child, each parsed right operand the right child"
                     if ok_l and ok_r else "combine_rights no longer builds a left-leaning tree", where(comb))
@@ -1011,7 +1035,7 @@ def rule_lit(chk, fm):
         tab = {}
         if not fn:
             return tab
-        for m in F.exprs(fn["thir"], "Match"):
+        for m in F.exprs_deep(f, fn, "Match", depth=1):
             for arm in m["arms"]:
                 toks = [a["variant"] for a in F.exprs(arm["body"], "Adt") if short(a["adt"]) == "Token"]
                 if len(toks) != 1:
